@@ -1467,6 +1467,15 @@ def run(ctx):
                     programs.append(one_clause(('a', 'x'), [z, E])); programs.append(one_clause(('a', 'x'), [E, z]))
                     programs.append(one_clause(E, [z])); programs.append(one_clause(('and', z, E), [])); programs.append(prog_of('lam', ('and', z, E)))
                     n_ife += 5
+        # ... and the same with a constant operand inside the test / body / else-branch (`(b or 0) if a else c`): the folded operand
+        # leaves a conditional jump that is not adjacent to its JUMP_BACKWARD
+        shapes.__defaults__[0].clear()
+        for n in range(2, 4):
+            for e in enumerate_exprs_lit(n, 2, ('1', '0')):
+                for E in (('ife', e, g, h), ('ife', t, e, h), ('ife', t, g, e)):
+                    for c in (E, ('and', z, E), ('or', z, E), ('and', E, z), ('or', E, z)):
+                        programs.append(prog_of('cond', c)); n_ife += 1
+                    programs.append(one_clause(E, [z])); programs.append(prog_of('elt', E)); n_ife += 2
         # constant operands (True / None / ints) of not, and/or, if-else, ==, f(.): CPython folds them away and leaves degenerate jumps
         lit_k = ctx.scale(4, 5)
         shapes.__defaults__[0].clear()
